@@ -1174,6 +1174,12 @@ class Norm:
         return None
 
     def mk_call(self, f: Term, args: List[Term], kwargs: List[Tuple[str, Term]], scope: Optional[Scope]) -> Term:
+        # beta-reduction of an immediately applied lambda (also under a conditional choice of lambdas)
+        if not kwargs:
+            if f[0] == "lam" and f[1] == len(args):
+                return substitute(f[2], {("v", "λ%d" % i): a for i, a in enumerate(args)})
+            if f[0] == "ife" and f[2][0] == "lam" and f[3][0] == "lam" and f[2][1] == len(args) == f[3][1]:
+                return self.mk_ife(f[1], self.mk_call(f[2], args, kwargs, scope), self.mk_call(f[3], args, kwargs, scope))
         # keyword -> positional for known repo signatures
         sig = self.signature_of(f, scope)
         if sig is not None and kwargs and not any(k == "**" for k, _ in kwargs):
